@@ -180,11 +180,19 @@ def run_one(fn, running, hopping, op, queue, sched):
                     rejected[0] += 1
         ctl.spawn("tick", tick)
         ctl.spawn("sock", sock)
+        # choices: for every scheduling decision actually taken, (thread stepped: 1 = tick, was the other thread runnable as well?) -
+        # the exhaustive tier enumerates each distinct interleaving once by branching only where both threads could run
+        choices = []
         for bit in sched:
             who, other = ("tick", "sock") if bit else ("sock", "tick")
-            if not ctl.step(who):
-                if not ctl.step(other):
-                    break
+            both = ctl.state["tick"][0] == "at" and ctl.state["sock"][0] == "at"
+            if ctl.step(who):
+                choices.append((1 if who == "tick" else 0, both))
+            elif ctl.step(other):
+                choices.append((1 if other == "tick" else 0, False))
+            else:
+                break
+        run_one.last_choices = choices
         for who in ("tick", "sock"):
             while ctl.step(who):
                 pass
